@@ -36,6 +36,66 @@ def fnv64 (s : String) : String :=
   let n := h.toNat
   String.ofList ((List.range 16).map (fun i => hexDigit (n / 16 ^ (15 - i) % 16)))
 
+/-! ### names in protocol tokens and in URL paths
+
+Names are opaque strings for the model. The harness writes them into the protocol in two encoded forms:
+* inside monitor tokens (`dbcheck users=`, `isolation`, `logins`) as `tokEnc name`: every UTF-8 byte outside
+  `A-Z a-z 0-9 - _ . ~` as `%HH` (the name `-` as `%2D`). The monitors only compare such tokens, and `tokEnc` is
+  injective, so nothing is decoded there; `dumpText` prints the model's user names in the same form.
+* inside the path of an `http` line as the text that went over the wire. actix-web 4.10 / actix-router 0.5.3
+  (observed on the real server): the path ends at the first `?` or `#`; routing splits the still-encoded text at
+  `/` (so `%2F` does not separate segments, a raw `/` does); the `{problem_name}` segment must be non-empty and is
+  then percent-decoded completely (`%2F` becomes `/`, `%25` becomes `%`, `+` stays `+`, a `%` not followed by two
+  hex digits stays as it is; see `segName` for the two passes); a request inside the scopes `/users`, `/adf` that matches no route is answered
+  `404` with an empty body. -/
+
+def hexVal (c : Char) : Option Nat :=
+  let n := c.toNat
+  if 48 ≤ n && n ≤ 57 then some (n - 48)
+  else if 97 ≤ n && n ≤ 102 then some (n - 87)
+  else if 65 ≤ n && n ≤ 70 then some (n - 55)
+  else none
+
+def hexUp (n : Nat) : Char := if n < 10 then Char.ofNat (48 + n) else Char.ofNat (55 + n)
+
+def tokEnc (s : String) : String :=
+  if s == "-" then "%2D" else
+  String.join (s.toUTF8.toList.map (fun b =>
+    let n := b.toNat
+    if (48 ≤ n && n ≤ 57) || (65 ≤ n && n ≤ 90) || (97 ≤ n && n ≤ 122) || n == 45 || n == 95 || n == 46 || n == 126
+    then String.singleton (Char.ofNat n) else String.ofList ['%', hexUp (n / 16), hexUp (n % 16)]))
+
+/-- one decoding pass over a percent-encoded text, as bytes: a `%HH` escape becomes its byte unless `keep` holds
+for the byte (then the escape stays as it is); a `%` not followed by two hex digits stays as it is.
+`skip`: characters already consumed as the hex digits of an escape -/
+def pctBytesAux (keep : Nat → Bool) : Nat → List Char → List UInt8
+  | _, [] => []
+  | skip + 1, _ :: rest => pctBytesAux keep skip rest
+  | 0, c :: rest =>
+    if c == '%' then
+      match rest with
+      | a :: b :: _ =>
+        match hexVal a, hexVal b with
+        | some x, some y =>
+          if keep (16 * x + y) then UInt8.ofNat 37 :: pctBytesAux keep 0 rest
+          else UInt8.ofNat (16 * x + y) :: pctBytesAux keep 2 rest
+        | _, _ => UInt8.ofNat 37 :: pctBytesAux keep 0 rest
+      | _ => UInt8.ofNat 37 :: pctBytesAux keep 0 rest
+    else (String.singleton c).toUTF8.toList ++ pctBytesAux keep 0 rest
+
+def pctPass (keep : Nat → Bool) (w : String) : Option String :=
+  String.fromUTF8? ⟨(pctBytesAux keep 0 w.toList).toArray⟩
+
+/-- the value of a `{name}` path parameter. Two passes, as in actix-router 0.5.3: the path is "requoted" before
+routing (`Url::new`, `Quoter::new(b"", b"%/+")`: escapes are decoded except `%25`, `%2F`, `%2B`), the parameter is
+decoded again, completely, by the `Path` deserializer (`FULL_QUOTER`). On a well-formed text this is ONE complete
+decoding; on a malformed one it is not (`%%32F` becomes `%2F` and then `/`: observed on the real server).
+`none`: the bytes are not UTF-8 (actix substitutes U+FFFD; the harness never sends that). -/
+def segName (w : String) : Option String :=
+  (pctPass (fun b => b == 37 || b == 47 || b == 43) w).bind (pctPass (fun _ => false))
+
+def cutQuery (p : String) : String := String.ofList (p.toList.takeWhile (fun c => c != '?' && c != '#'))
+
 /-! ### the instance of the model -/
 
 /- `SHash`, `SState`, `SResp`, `Oracle`, `parseKey`, `stratName`, `solveKey`, `lookupS` and the
@@ -138,7 +198,7 @@ def problemDumpJson (detail : Bool) (p : Problem String SAdf SRes) : String :=
   ++ ",\"parsing_used\":" ++ jsonStr (parsingName p.parsing) ++ ",\"username\":" ++ jsonStr p.username ++ "}"
 
 def dumpText (detail : Bool) (db : Db String SHash SAdf SRes) : String :=
-  let us := db.users.map (fun u => u.username ++ ":" ++ (if u.password.isSome then "argon2" else "null"))
+  let us := db.users.map (fun u => tokEnc u.username ++ ":" ++ (if u.password.isSome then "argon2" else "null"))
   "users=" ++ (if us.isEmpty then "-" else joinWith "," us) ++ " problems=["
   ++ joinWith "," (db.problems.map (problemDumpJson detail)) ++ "]"
 
@@ -153,44 +213,60 @@ def parseFields (w : String) : Option (List (String × String)) :=
 
 def parseJar (w : String) : Option Nat := if w.startsWith "j" then (w.drop 1).toString.toNat? else none
 
+/-- what actix's router makes of a request line -/
+inductive Routed where
+  | req (r : Req String)
+  | notFound            -- inside the scope `/users` or `/adf`, no route: 404, empty body, no handler runs
+  | bad                 -- not a request of this family (the harness never sends it)
+
+/-- a handler with a `{problem_name}` parameter: the segment must be non-empty, its value is decoded -/
+def withName (w : String) (k : String → Req String) : Routed :=
+  if w.isEmpty then .notFound else
+  match segName w with
+  | some n => .req (k n)
+  | none => .bad
+
 /-- the request of a protocol line; `tu`, `pu`: the names the generator would propose next -/
-def parseReq (method path : String) (fs : List (String × String)) (salt : Nat) (tu pu : String) : Option (Req String) :=
+def parseReq (method path : String) (fs : List (String × String)) (salt : Nat) (tu pu : String) : Routed :=
   let f := fun k => lookupS k fs
-  let segs := (path.splitOn "/").drop 1
+  let segs := ((cutQuery path).splitOn "/").drop 1
   match method, segs with
   | "POST", ["users", "register"] =>
-    some (match f "username", f "password", f "raw" with
+    .req (match f "username", f "password", f "raw" with
       | some u, some p, none => .register u p salt
       | _, _, _ => .malformed)
   | "POST", ["users", "login"] =>
-    some (match f "username", f "password", f "raw" with
+    .req (match f "username", f "password", f "raw" with
       | some u, some p, none => .login u p
       | _, _, _ => .malformed)
-  | "DELETE", ["users", "logout"] => some .logout
-  | "GET", ["users", "info"] => some .info
+  | "DELETE", ["users", "logout"] => .req .logout
+  | "GET", ["users", "info"] => .req .info
   | "PUT", ["users", "update"] =>
-    some (match f "username", f "password", f "raw" with
+    .req (match f "username", f "password", f "raw" with
       | some u, some p, none => .update u p salt
       | _, _, _ => .malformed)
-  | "DELETE", ["users", "delete"] => some .deleteAccount
+  | "DELETE", ["users", "delete"] => .req .deleteAccount
   | "POST", ["adf", "add"] =>
-    some (match f "name", f "parsing" with
+    .req (match f "name", f "parsing" with
       | some n, some "Naive" => .add n (f "code") (f "file") .naive tu pu
       | some n, some "Hybrid" => .add n (f "code") (f "file") .hybrid tu pu
       | _, _ => .malformed)
   | "PUT", ["adf", n, "solve"] =>
-    some (match (f "strategy").bind parseStrategy with
+    withName n (fun n => match (f "strategy").bind parseStrategy with
       | some s => .solve n s
       | none => .malformed)
-  | "GET", ["adf", ""] => some .list
-  | "GET", ["adf", n] => some (.get n)
-  | "DELETE", ["adf", n] => some (.delete n)
-  | _, _ => none
+  | "GET", ["adf", ""] => .req .list
+  | "GET", ["adf", n] => withName n .get
+  | "DELETE", ["adf", n] => withName n .delete
+  | _, "users" :: _ => .notFound
+  | _, "adf" :: _ => .notFound
+  | _, _ => .bad
 
 /-! ### driver state -/
 
 inductive HEvent where
   | req (rq : Request String)
+  | nf (jar : Nat)                                -- a request no route matched (404 from the router)
   | fin (jar n : Nat)
   | done (jar n : Nat)
 
@@ -221,16 +297,23 @@ def reqNames : Req String → List String
 
 def applyEvent (E : Env String SHash SAdf SRes) (st : SState) : HEvent → SState × Option SResp
   | .req rq => let o := step E st rq; (o.1, some o.2)
+  | .nf _ => (st, none)
   | .fin j n => ((stepEv E st (.finish j n)).1, none)
   | .done j n => ((stepEv E (stepEv E st (.finish j n)).1 (.write j n)).1, none)
+
+/-- status, cookie event and (empty) body of the router's 404 -/
+def notFoundText : String := "404 - "
 
 /-- the responses jar `j` would get if only its own events happened -/
 def aloneRun (h : HttpSt) (j : Nat) : List String :=
   let evs := h.events.reverse.filter (fun e => match e with
-    | .req rq => rq.jar == j | .fin k _ => k == j | .done k _ => k == j)
+    | .req rq => rq.jar == j | .nf k => k == j | .fin k _ => k == j | .done k _ => k == j)
   let r := evs.foldl (fun (acc : SState × List String) e =>
     let o := applyEvent h.env acc.1 e
-    (o.1, match o.2 with | some r => acc.2 ++ [respText h.detail r] | none => acc.2)) (({} : SState), [])
+    (o.1, match e, o.2 with
+      | .nf _, _ => acc.2 ++ [notFoundText]
+      | _, some r => acc.2 ++ [respText h.detail r]
+      | _, none => acc.2)) (({} : SState), [])
   r.2
 
 def disjointNames (h : HttpSt) (j : Nat) : Bool :=
@@ -349,8 +432,11 @@ def httpStep (h : HttpSt) (l : String) (ws : List String) : Option (List String 
       let tu := s!"~t{h.temps + 1}"
       let pu := s!"~p{h.gens + 1}"
       match parseReq method path fs h.salt tu pu with
-      | none => some ([l, "= bad-request"], h)
-      | some rq =>
+      | .bad => some ([l, "= bad-request"], h)
+      | .notFound =>
+        some ([l, "= " ++ notFoundText],
+          { h with salt := h.salt + 1, events := .nf j :: h.events, resps := (j, notFoundText) :: h.resps })
+      | .req rq =>
         let o := step h.env h.st ⟨j, rq⟩
         let txt := respText h.detail o.2
         let madeTemp := match o.2.cookie, rq with
